@@ -1,6 +1,7 @@
 package main
 
 import (
+	"bytes"
 	"encoding/json"
 	"fmt"
 	"strings"
@@ -169,6 +170,7 @@ func evalC17(cs *c17Case) (vs []*Violation) {
 		c.Extra = map[string]any{"case": cs}
 		vs = append(vs, &Violation{Property: "C17", Site: site, Rule: rule, Class: class, Detail: detail, Case: c})
 	}
+	defer recoverTo3(add)
 	flags := sipsp.POptFlags(cs.Mode.Flags)
 	cmpItem := func(i int, p *sipsp.PTokParam, what string) {
 		e := exp[i]
@@ -643,6 +645,8 @@ func checkC17(r *Run) {
 			}
 		}
 	}
+	// URIParamResolve (the classification the list wrappers use): exactly the six names, case-insensitively
+	c17Resolve(r)
 	// the same lists at the very end of a buffer of exactly 65,535 bytes (the documented addressing limit): verdict,
 	// offset and items must be those of the list alone, shifted
 	c17AtLimit(r, modes)
@@ -654,6 +658,51 @@ func checkC17(r *Run) {
 	r.Bounds["items_menu"] = len(items)
 	r.Bounds["max_items"] = maxItems
 	r.Bounds["modes"] = len(modes)
+}
+
+func c17Resolve(r *Run) {
+	chk := func(c *enumCtx, n []byte) {
+		c.st.Evals++
+		c.st.Transitions++
+		if got, want := sipsp.URIParamResolve(n), refURIParamType(string(n)); got != want {
+			cl := "known-name"
+			if want == sipsp.URIParamOtherF {
+				cl = "other-name"
+			}
+			r.Col.add(&Violation{Property: "C17", Site: "URIParamResolve", Rule: "known-uri-parameters-classified-case-insensitively", Class: cl,
+				Detail: fmt.Sprintf("%q -> %#x want %#x", n, got, want), Case: mkCase("C17resolve", "URIParamResolve", nil, n, nil)})
+		}
+	}
+	enumStrings(r, all256(), 0, 2, nil, chk)
+	names := []string{"transport", "lr", "maddr", "user", "method", "ttl"}
+	parallelFor(r, len(names), func(c *enumCtx, i int) {
+		base := []byte(names[i])
+		for m := 0; m < 1<<len(base); m++ { // every letter-case variant
+			v := append([]byte(nil), base...)
+			for k := range v {
+				if m>>k&1 == 1 {
+					v[k] -= 32
+				}
+			}
+			chk(c, v)
+		}
+		for p := 0; p <= len(base); p++ { // one-edit neighbours over all byte values
+			for x := 0; x < 256; x++ {
+				chk(c, append(append(append([]byte(nil), base[:p]...), byte(x)), base[p:]...))
+				if p < len(base) {
+					sub := append([]byte(nil), base...)
+					sub[p] = byte(x)
+					chk(c, sub)
+				}
+			}
+			if p < len(base) {
+				chk(c, append(append([]byte(nil), base[:p]...), base[p+1:]...))
+			}
+		}
+		for _, l := range []int{256, 512, 65536} { // lengths that alias the name's length modulo 2^8 / 2^16
+			chk(c, append(append([]byte(nil), base...), bytes.Repeat([]byte("x"), l)...))
+		}
+	})
 }
 
 func c17Via(r *Run) {
@@ -701,6 +750,17 @@ func init() {
 		var cs c17Case
 		remarshal(c.Extra["case"], &cs)
 		return evalC17(&cs)
+	}
+	replayers["C17resolve"] = func(prop string, c *Case) []*Violation {
+		n := c.input()
+		if got, want := sipsp.URIParamResolve(n), refURIParamType(string(n)); got != want {
+			cl := "known-name"
+			if want == sipsp.URIParamOtherF {
+				cl = "other-name"
+			}
+			return []*Violation{{Property: prop, Site: "URIParamResolve", Rule: "known-uri-parameters-classified-case-insensitively", Class: cl, Detail: fmt.Sprintf("%q -> %#x want %#x", n, got, want), Case: c}}
+		}
+		return nil
 	}
 	replayers["C17byte"] = func(prop string, c *Case) []*Violation {
 		var m plMode
